@@ -145,8 +145,10 @@ fn gen_case(r: &mut Rng, big: bool) -> Case {
     // 1. the sub-hypergraph G
     let labels = r.range(1, 3);
     let huge = r.chance(1, if big { 20 } else { 150 });
-    let gn = if huge { r.range(5, 16) } else { r.range(0, if big { 5 } else { 4 }) };
-    let gm = if gn == 0 { r.below(2) } else if huge { r.range(2, 10) } else { r.range(0, 3) };
+    // a quarter of the unusually large cases go past the usual power-of-two thresholds
+    let giant = huge && r.chance(1, 4);
+    let gn = if giant { *r.pick(&[40, 70, 140, 270]) } else if huge { r.range(5, 16) } else { r.range(0, if big { 5 } else { 4 }) };
+    let gm = if gn == 0 { r.below(2) } else if giant { *r.pick(&[10, 70, 140, 270]) } else if huge { r.range(2, 10) } else { r.range(0, 3) };
     let side = |r: &mut Rng, n: usize| -> Vec<usize> {
         if n == 0 {
             vec![]
@@ -162,11 +164,11 @@ fn gen_case(r: &mut Rng, big: bool) -> Case {
     }
     // 2. the target H: G plus extra nodes and extra hyperedges over all nodes
     let mut h = g.clone();
-    for _ in 0..(if huge { r.range(2, 16) } else { r.range(0, if big { 4 } else { 3 }) }) {
+    for _ in 0..(if giant { *r.pick(&[2, 30, 70, 140]) } else if huge { r.range(2, 16) } else { r.range(0, if big { 4 } else { 3 }) }) {
         h.w.push(r.below(labels) as L);
     }
     let hn = h.w.len();
-    for _ in 0..(if huge { r.range(3, 14) } else { r.range(0, if big { 5 } else { 4 }) }) {
+    for _ in 0..(if giant { *r.pick(&[3, 30, 70, 140]) } else if huge { r.range(3, 14) } else { r.range(0, if big { 5 } else { 4 }) }) {
         let s = side(r, hn);
         let t = side(r, hn);
         h.e.push(edge(r.below(2) as L, s, t));
@@ -343,6 +345,8 @@ impl Check for C18 {
     fn execute(c: &Case, ex: &mut Exec) -> Result<(), Violation> {
         ex.workload_fp = mix(mix(c.g.fingerprint(), c.h.fingerprint()), c.w.iter().chain(c.x.iter()).fold((c.w_cod * 131 + c.x_cod) as u64, |a, v| mix(a, *v as u64)));
         ex.nontrivial = c.h.n() >= 1;
+        ex.probe_if(c.h.n() >= 64 || c.h.m() >= 64, "size_64_or_more");
+        ex.probe_if(c.h.n() >= 256 || c.h.m() >= 256, "size_256_or_more");
         let budget = launch_budget(&c.h) + launch_budget(&c.g);
         let valid = !failing(c).iter().any(|f| *f);
         ex.probe_if(c.corruption != "none", "corrupted_case");
